@@ -4,7 +4,10 @@ from . import common as C
 
 
 def _run_json(cmd, timeout):
-    p = subprocess.run(cmd, stdout=subprocess.PIPE, stderr=subprocess.PIPE, text=True, timeout=timeout)
+    try:
+        p = subprocess.run(cmd, stdout=subprocess.PIPE, stderr=subprocess.PIPE, text=True, timeout=timeout)
+    except subprocess.TimeoutExpired:
+        return -9, None, 'timeout'
     try:
         return p.returncode, json.loads(p.stdout), p.stderr
     except Exception:
@@ -15,7 +18,8 @@ def run_c13(tier):
     rep = C.Report('C13', tier)
     b = C.make('engines/seqx/Makefile', 'plain')
     depth = 5 if tier == 'thorough' else 4
-    rc, d, err = _run_json([f'{b}/c13_props', '--depth', str(depth), '--max-states', '30000000'], C.deadline_s(3000 if tier == 'thorough' else 600))
+    dl = C.deadline_s(3000 if tier == 'thorough' else 600)
+    rc, d, err = _run_json([f'{b}/c13_props', '--depth', str(depth), '--max-states', '30000000', '--deadline', str(dl * 0.9)], dl + 120)
     if d is None:
         rep.violation('C13:engine-crash', f'c13_props ended with status {rc} without a verdict (a crash inside a property function corrupts the heap): {err}', {'engine': 'seqx/c13_props', 'depth': depth})
         rep.coverage = {'states': 1, 'transitions': 1, 'traces_validated_against_impl': 0, 'exhaustive': False, 'samples': ['(crashed)']}
@@ -63,8 +67,11 @@ def _simple(pid, tier, exe, argsets, rule, assumptions, timeout=None):
         try:
             d = json.loads(so)
         except Exception:
-            rep.violation(f'{pid}:engine-crash', f'{exe} {" ".join(a)} ended with status {rc} without a verdict: {(so[-300:] + se[-300:])}', {'engine': f'seqx/{exe}', 'args': a})
             exhaustive = False
+            if rc == -9 and se == 'timeout':
+                per.append({'args': ' '.join(a), 'status': 'not completed before the deadline'})
+                continue
+            rep.violation(f'{pid}:engine-crash', f'{exe} {" ".join(a)} ended with status {rc} without a verdict: {(so[-300:] + se[-300:])}', {'engine': f'seqx/{exe}', 'args': a})
             continue
         for v in d.pop('violations'):
             spec = v.get('spec') or v.get('history') or v.get('ops') or ''
@@ -135,16 +142,22 @@ def run_c12(tier):
                 shutil.copy(f'{src}/{n}.so', f'{d}/{target}')
                 present.append(n)
         full = mask in (15, 1, 7)
-        cmds.append([f'{d}/c12_select', '--maxlen', str(maxlen_full if full else 2)])
-        names.append('+'.join(present) or '(no driver library)')
+        nsh = 16 if (full and maxlen_full >= 4 and mask == 15) else 1
+        ml = maxlen_full if (mask == 15 or (full and maxlen_full <= 3)) else (3 if full else 2)
+        for sh in range(nsh):
+            cmds.append([f'{d}/c12_select', '--maxlen', str(ml), '--shard', f'{sh}/{nsh}'])
+            names.append('+'.join(present) or '(no driver library)')
     res = C.run_parallel(cmds, timeout=C.deadline_s(3000 if tier == 'thorough' else 600))
     tot, per, samples, ex = {}, [], [], True
     for name, cmd, (rc, so, se) in zip(names, cmds, res):
         try:
             d = json.loads(so)
         except Exception:
-            rep.violation('C12:crash', f'c12_select with libraries [{name}] ended with status {rc} without a verdict (crash or escaping exception): {(so[-200:] + se[-300:])}', {'engine': 'seqx/c12_select', 'libraries': name, 'cmd': ' '.join(cmd)})
             ex = False
+            if rc == -9 and se == 'timeout':
+                per.append({'libraries_present': name, 'status': 'not completed before the deadline'})
+                continue
+            rep.violation('C12:crash', f'c12_select with libraries [{name}] ended with status {rc} without a verdict (crash or escaping exception): {(so[-200:] + se[-300:])}', {'engine': 'seqx/c12_select', 'libraries': name, 'cmd': ' '.join(cmd)})
             continue
         for v in d.pop('violations'):
             rep.violation(f"C12:{v['clause']}", f"{v['detail']} [{v['count']} calls; libraries: {name}] {v['spec']}", {'engine': 'seqx/c12_select', 'libraries': name, 'spec': v['spec'], 'cmd': ' '.join(cmd)})
@@ -179,8 +192,10 @@ def run_c17(tier):
         try:
             d = json.loads(so)
         except Exception:
-            rep.violation('C17:engine-crash', f'{" ".join(cmd)} ended with status {rc} without a verdict: {(so[-200:] + se[-300:])}', {'engine': 'seqx/c17_simcam', 'cmd': ' '.join(cmd)})
             ex = False
+            if rc == -9 and se == 'timeout':
+                continue  # deadline: reported as exhaustive:false
+            rep.violation('C17:engine-crash', f'{" ".join(cmd)} ended with status {rc} without a verdict: {(so[-200:] + se[-300:])}', {'engine': 'seqx/c17_simcam', 'cmd': ' '.join(cmd)})
             continue
         for v in d.pop('violations'):
             rep.violation(f"C17:{v['clause']}", f"{v['detail']} [{v['count']} sequences, {d['variant']}] configuration sequence (kind,binning,type,w,h,ox,oy): {v['spec']}",
